@@ -14,9 +14,11 @@ func VxB_GateHit() {
 	vxND = vxBoundsB()
 	w := vxNewWorld(0)
 	id := vxURLKey + "#0"
+	vxGateRcv := vxTimeSec("e.date") // received when generated
 	e := &vxResponse{ID: id, Data: &http.Response{StatusCode: 200, Header: http.Header{
-		"Date": []string{"Thu, 01 Jan 2026 00:00:00 GMT"}, "Cache-Control": []string{"max-age=999999999"}, "Etag": []string{"\"v1\""}, vxTagHeader: []string{"stored"}},
-		Body: &vxBodyT{tag: 0}}}
+		"Date": []string{vxHTTPDate("e.date")}, "Cache-Control": []string{"max-age=999999999"}, "Etag": []string{"\"v1\""}, vxTagHeader: []string{"stored"}},
+		Body: &vxBodyT{tag: 0}}, RequestedAt: vxGateRcv, ReceivedAt: vxGateRcv}
+	vxClkFloor, vxClkHasFloor = vxGateRcv, true
 	_ = w.rt.cache.Set(id, e)
 	_ = w.rt.cache.SetRefs(vxURLKey, internal.ResponseRefs{&internal.ResponseRef{ResponseID: id}})
 	w.conn.log = nil
